@@ -273,6 +273,22 @@ CLAIMED = {
         technique="TLA+ exact-arithmetic spec + TLC exhaustive case enumeration, replay into the implementation",
         ref="5/C12",
     ),
+    "C02": dict(
+        level="exploration",
+        text="RotationCharts.tla: the lattice of exact rational rotations R = N(P)/|P|^2 including exact half-turns and rotations within 0.01 rad "
+             "of a half-turn; Spurrier's algorithm with the square root factored out is integer arithmetic and TLC model-checks, for every lattice "
+             "quaternion and every admissible branch (ties of the branch selection included), that the radicand is the square of the chosen "
+             "component, the divisions are exact and the result is +-P/|P|, a unit quaternion that reproduces R. Every lattice rotation is fed to the "
+             "real Spurrier (scaled output must be one of the spec's admissible integer vectors), Log_SO3/Exp_SO3/Log_SE3/Exp_SE3 (round trips against "
+             "the spec's exact matrix and the rotation vector 2 atan2(|p|,p0) p/|p|), T_SO3/T_SO3_inv (product = I for |psi| in [1e-9, 2 pi - 1e-2], "
+             "columns = body-fixed spin of Exp_SO3); float matrices at distances 1e-3..3e-17 around each exact half-turn are added.",
+        note="Model checking for the Spurrier clause (spec level all lattice points; code bound on the same points). The transcendental clauses "
+             "(Exp/Log round trips, tangent maps, SE(3)) are float comparisons in the harness on lattice-driven inputs: tolerances 1e-12 (Exp, "
+             "Spurrier), 1e-9 (through Log_SO3), 1e-8 (SE(3), T*T_inv scaled by |T_inv|^2), 2e-8 (spin by central differences). Log_SO3 = psi is "
+             "judged only >= 1e-6 rad away from a half-turn (closer the sign of psi is not determined by the matrix).",
+        technique="TLA+ exact-lattice spec + TLC exhaustive grid for Spurrier; lattice-driven replay of the charts with float round-trip oracles",
+        ref="5/C02",
+    ),
 }
 
 NOT_APPLICABLE = {
